@@ -339,9 +339,28 @@ def run(tier="quick", root="/repo", evidence_dir=None, quiet=False):
         "itertools.product enumerates in lexicographic order of its arguments (documented)",
     ])
     repo = get_repo(root)
-    P = rule_r1(rep, repo)
-    rep.attempt(rule_r2_r3, rep, repo)   # an undecided stream does not mask violations already found
-    rep.attempt(rule_r4, rep, repo, P)
+    # R5 first: the evaluation over symbolic grids decides the bounded sweep whatever idiom the code uses
+    from gridlint import product_quad
+    before = len(rep.failed_floors)
+    rep.attempt(product_quad.rule_product_quadrature, rep, repo)
+    r5_decided = len(rep.failed_floors) == before and not any(v["rule"].startswith("R5.") for v in rep.violations)
+
+    def structural(rule, *args):
+        """The lock-step rules argue for all sizes from the shape of the code.  When they do not recognise an idiom
+        and R5 has decided the sweep, that is recorded as a note instead of leaving the whole check undecided."""
+        try:
+            return rule(*args)
+        except AnalysisError as e:
+            if r5_decided:
+                rep.note(f"structural rule {rule.__name__} did not recognise the idiom ({str(e)[:160]}); the product-quadrature "
+                         f"rule R5 decided the bounded sweep of configurations")
+                return None
+            rep.failed_floors.append(str(e))
+            return None
+    P = structural(rule_r1, rep, repo)
+    structural(rule_r2_r3, rep, repo)
+    if P is not None:
+        structural(rule_r4, rep, repo, P)
     # _chunked_iterator: islice of one shared iterator, stops on empty chunk
     g = repo.module_func("ngrid", "_chunked_iterator")
     txt = " ".join(norm(s) for s in g.node.body)
@@ -349,7 +368,5 @@ def run(tier="quick", root="/repo", evidence_dir=None, quiet=False):
         rep.ok("R3.chunker-shape", "ngrid._chunked_iterator", g.loc(), "islice over one shared iterator, stops at the first empty chunk")
     else:
         rep.note("ngrid._chunked_iterator has an unrecognised shape (not a violation by itself)")
-    from gridlint import product_quad
-    rep.attempt(product_quad.rule_product_quadrature, rep, repo)
     rep.extra["source_digest"] = repo.digest(["ngrid"])
     return rep.finish(evidence_dir=evidence_dir, quiet=quiet)
